@@ -1,6 +1,9 @@
 //! C03 — element (i,j) means row i, column j in every matrix API, whatever the layout.
 //! Explicit-state search (stateright BFS) over short programs of matrix API calls; the row-major and
 //! the column-major value run side by side and must denote the same abstract matrix in every state.
+//! Beside the search: concrete-value sections for what the opaque 2-byte symbol cannot show (numcast/as_ semantics and
+//! thresholds, trace on free terms, Display under every formatter setting, memory views for other element widths,
+//! trait forms of zero/identity, closure call multiplicity) - see out/AUDIT1.md and out/AUDIT2.md.
 use stateright::{Checker, Model, Property};
 use std::sync::atomic::{AtomicU64, Ordering::Relaxed};
 use std::sync::Arc;
@@ -241,6 +244,17 @@ impl Model for MatModel {
     }
 }
 
+/// spy element for the Display sections: prints every formatter setting it is handed
+#[derive(Clone, Copy, PartialEq, Debug)]
+struct Spy(u8);
+impl std::fmt::Display for Spy {
+    fn fmt(&self, f: &mut std::fmt::Formatter) -> std::fmt::Result {
+        let al = match f.align() { Some(std::fmt::Alignment::Left) => "<", Some(std::fmt::Alignment::Right) => ">", Some(std::fmt::Alignment::Center) => "^", None => "." };
+        let (w, p, fill, plus, minus, alt, zero) = (f.width(), f.precision(), f.fill(), f.sign_plus(), f.sign_minus(), f.alternate(), f.sign_aware_zero_pad());
+        write!(f, "[{}:w{:?},p{:?},f{:?},a{},{}{}{}{}]", self.0, w, p, fill, al, if plus { "+" } else { "" }, if minus { "-" } else { "" }, if alt { "#" } else { "" }, if zero { "0" } else { "" })
+    }
+}
+
 fn main() {
     let rep = Report::start("C03", "model_checking");
     let mut lk = json!({});
@@ -414,6 +428,267 @@ fn main() {
             }
         }} }
         trc!(2, Mat2, rm, cm, "row"); trc!(2, Mat2, cm, rm, "col"); trc!(3, Mat3, rm, cm, "row"); trc!(3, Mat3, cm, rm, "col"); trc!(4, Mat4, rm, cm, "row"); trc!(4, Mat4, cm, rm, "col");
+    });
+
+    // ================================================================================================================
+    // second audit pass (out/AUDIT2.md): element-type families, thresholds of the per-element conversions, every
+    // formatter flag, trait forms, call multiplicity
+    // ================================================================================================================
+
+    rep.section("memory views and array conversions across element widths and alignments",
+        "the stateright run uses one element type (Sym, 2 bytes, size = alignment); here the 6 matrix types are instantiated for 10 element types - u8, i32, u128, [u8;3] (size 3, align 1), Option<u8> (2/1), (u8,u32) (8/4), [u64;5] (40/8), &str (fat pointer), and the zero-sized () and [u16;0] - with N*N pairwise distinct entries (zero-sized: all equal, so only lengths and panics are decided) built by struct literal; per type and layout: is_packed, as_row_slice/as_col_slice (order AND length), const and mut pointer = the value's own storage, as_mut_*_slice (order, and a write at every flat position lands in the right field), into_{row,col}_array(s) of both layouts, from_{row,col}_array(s) of both layouts fed with arrays written by the model (not with into_* output), m[(i,j)] for all (i,j), transposed / transpose in place, conversion to the other layout, diagonal, map into a wider pair type; the calls of one (type, size) run under one catch_unwind with a progress marker (a panic is a violation at the call that was running; the calls after it are then skipped); non-trivial: all", true, false, |s| {
+        use std::cell::Cell;
+        use std::mem::{align_of, size_of};
+        s.require_classes(&["size-equals-alignment", "size-differs-from-alignment", "zero-sized"]);
+        fn neq<T: PartialEq + std::fmt::Debug>(got: &T, want: &T) -> Option<String> { if got == want { None } else { Some(format!("got {:?} want {:?}", got, want)) } }
+        const PACK: &str = "not-packed-for-this-element-type";
+        const SLICE: &str = "slice-order-or-length-wrong-for-this-element-type";
+        const PTR: &str = "pointer-is-not-the-value's-own-storage-for-this-element-type";
+        const WRITE: &str = "write-through-mutable-slice-lands-in-another-element-for-this-element-type";
+        const INTO: &str = "array-order-wrong-for-this-element-type";
+        const FROM: &str = "array-read-into-the-wrong-elements-for-this-element-type";
+        const ELEM: &str = "element-moved-for-this-element-type";
+        macro_rules! views { ($N:expr, $M:ident, $T:ty, $tn:expr, $gen:expr) => {{
+            const N: usize = $N;
+            let g = $gen;
+            let arr: A<$T, N> = std::array::from_fn(|i| std::array::from_fn(|j| g(i * N + j)));
+            let tarr = transpose(&arr);
+            let row_flat: [$T; $N * $N] = std::array::from_fn(|k| arr[k / N][k % N]);
+            let col_flat: [$T; $N * $N] = std::array::from_fn(|k| arr[k % N][k / N]);
+            let diag: [$T; $N] = std::array::from_fn(|i| arr[i][i]);
+            let fresh: $T = g(N * N + 3);
+            let (r, c) = (<rm::$M<$T> as MatIO<$T, N>>::build(&arr), <cm::$M<$T> as MatIO<$T, N>>::build(&arr));
+            let (sz, al) = (size_of::<$T>(), align_of::<$T>());
+            s.class(if sz == 0 { "zero-sized" } else if sz == al { "size-equals-alignment" } else { "size-differs-from-alignment" });
+            let cur: Cell<(&'static str, &'static str)> = Cell::new(("", ""));
+            let mut fails: Vec<(&'static str, &'static str, &'static str, String)> = Vec::new();
+            let mut n = 0u64;
+            let mut shown: Option<String> = None;
+            let res = catch(|| {
+                macro_rules! k { ($lay:expr, $f:expr, $class:expr, $e:expr) => {{ cur.set(($lay, $f)); n += 1; if let Some(d) = $e { fails.push(($lay, $f, $class, d)); } }} }
+                k!("row", "is_packed", PACK, if r.is_packed() { None } else { Some("false".to_string()) });
+                k!("col", "is_packed", PACK, if c.is_packed() { None } else { Some("false".to_string()) });
+                k!("row", "as_row_slice", SLICE, neq(&r.as_row_slice(), &&row_flat[..]));
+                k!("col", "as_col_slice", SLICE, neq(&c.as_col_slice(), &&col_flat[..]));
+                k!("row", "as_row_ptr/as_mut_row_ptr", PTR, { let mut r2 = r; let p0 = &r2 as *const rm::$M<$T> as *const $T; if r2.as_row_ptr() == p0 && r2.as_mut_row_ptr() as *const $T == p0 { None } else { Some("another address".to_string()) } });
+                k!("col", "as_col_ptr/as_mut_col_ptr", PTR, { let mut c2 = c; let p0 = &c2 as *const cm::$M<$T> as *const $T; if c2.as_col_ptr() == p0 && c2.as_mut_col_ptr() as *const $T == p0 { None } else { Some("another address".to_string()) } });
+                k!("row", "as_mut_row_slice", SLICE, { let mut r2 = r; neq(&&*r2.as_mut_row_slice(), &&row_flat[..]) });
+                k!("col", "as_mut_col_slice", SLICE, { let mut c2 = c; neq(&&*c2.as_mut_col_slice(), &&col_flat[..]) });
+                k!("row", "as_mut_row_slice", WRITE, { let mut out = None; for k in 0..N * N { let mut r3 = r; r3.as_mut_row_slice()[k] = fresh; let mut wa = arr; wa[k / N][k % N] = fresh; if r3.decode() != wa { out = Some(format!("flat index {}", k)); break; } } out });
+                k!("col", "as_mut_col_slice", WRITE, { let mut out = None; for k in 0..N * N { let mut c3 = c; c3.as_mut_col_slice()[k] = fresh; let mut wa = arr; wa[k % N][k / N] = fresh; if c3.decode() != wa { out = Some(format!("flat index {}", k)); break; } } out });
+                k!("row", "into_row_array", INTO, neq(&r.into_row_array(), &row_flat));
+                k!("col", "into_row_array", INTO, neq(&c.into_row_array(), &row_flat));
+                k!("row", "into_col_array", INTO, neq(&r.into_col_array(), &col_flat));
+                k!("col", "into_col_array", INTO, neq(&c.into_col_array(), &col_flat));
+                k!("row", "into_row_arrays", INTO, neq(&r.into_row_arrays(), &arr));
+                k!("col", "into_row_arrays", INTO, neq(&c.into_row_arrays(), &arr));
+                k!("row", "into_col_arrays", INTO, neq(&r.into_col_arrays(), &tarr));
+                k!("col", "into_col_arrays", INTO, neq(&c.into_col_arrays(), &tarr));
+                // from_*: fed with arrays written by the model
+                k!("row", "from_row_array", FROM, neq(&rm::$M::<$T>::from_row_array(row_flat).decode(), &arr));
+                k!("col", "from_row_array", FROM, neq(&cm::$M::<$T>::from_row_array(row_flat).decode(), &arr));
+                k!("row", "from_col_array", FROM, neq(&rm::$M::<$T>::from_col_array(col_flat).decode(), &arr));
+                k!("col", "from_col_array", FROM, neq(&cm::$M::<$T>::from_col_array(col_flat).decode(), &arr));
+                k!("row", "from_row_arrays", FROM, neq(&rm::$M::<$T>::from_row_arrays(arr).decode(), &arr));
+                k!("col", "from_row_arrays", FROM, neq(&cm::$M::<$T>::from_row_arrays(arr).decode(), &arr));
+                k!("row", "from_col_arrays", FROM, neq(&rm::$M::<$T>::from_col_arrays(tarr).decode(), &arr));
+                k!("col", "from_col_arrays", FROM, neq(&cm::$M::<$T>::from_col_arrays(tarr).decode(), &arr));
+                k!("row", "index", ELEM, { let mut out = None; for i in 0..N { for j in 0..N { if r[(i, j)] != arr[i][j] { out = Some(format!("m[({},{})] = {:?}", i, j, r[(i, j)])); } } } out });
+                k!("col", "index", ELEM, { let mut out = None; for i in 0..N { for j in 0..N { if c[(i, j)] != arr[i][j] { out = Some(format!("m[({},{})] = {:?}", i, j, c[(i, j)])); } } } out });
+                k!("row", "transposed", ELEM, neq(&r.transposed().decode(), &tarr));
+                k!("col", "transposed", ELEM, neq(&c.transposed().decode(), &tarr));
+                k!("row", "transpose", ELEM, { let mut r2 = r; r2.transpose(); neq(&r2.decode(), &tarr) });
+                k!("col", "transpose", ELEM, { let mut c2 = c; c2.transpose(); neq(&c2.decode(), &tarr) });
+                k!("row", "into<col>", ELEM, neq(&cm::$M::<$T>::from(r).decode(), &arr));
+                k!("col", "into<row>", ELEM, neq(&rm::$M::<$T>::from(c).decode(), &arr));
+                k!("row", "diagonal", ELEM, neq(&r.diagonal().into_array(), &diag));
+                k!("col", "diagonal", ELEM, neq(&c.diagonal().into_array(), &diag));
+                k!("row", "map<(T,u8)>", ELEM, { let wide: A<($T, u8), N> = std::array::from_fn(|i| std::array::from_fn(|j| (arr[i][j], 7u8))); neq(&r.map(|x| (x, 7u8)).decode(), &wide) });
+                k!("col", "map<(T,u8)>", ELEM, { let wide: A<($T, u8), N> = std::array::from_fn(|i| std::array::from_fn(|j| (arr[i][j], 7u8))); neq(&c.map(|x| (x, 7u8)).decode(), &wide) });
+                shown = Some(format!("{:?}", c.as_col_slice()));
+            });
+            s.evals(n, n);
+            let ctx = json!({"element_type": $tn, "size": sz, "align": al, "n": N});
+            let site = |lay: &str, f: &str| format!("Mat{}<{}><{}>::{}", N, lay, $tn, f);
+            match res {
+                Ok(()) => {}
+                Err(Caught::Unmodelled(w)) => s.unmodelled(w),
+                Err(Caught::Panic(m)) => { let (lay, f) = cur.get(); s.violation_w(&site(lay, f), "panic", json!({"type": ctx.clone(), "panic": m}), sz as u64); }
+            }
+            for (lay, f, class, d) in fails { s.violation_w(&site(lay, f), class, json!({"type": ctx.clone(), "what": d}), sz as u64); }
+            if let Some(v) = shown { if N == 3 && s.wants_sample() { s.sample(json!({"type": format!("Mat3<{}>", $tn), "size": sz, "align": al, "as_col_slice(column-major)": v, "model": format!("{:?}", arr)})); } }
+        }} }
+        macro_rules! views3 { ($T:ty, $tn:expr, $gen:expr) => { views!(2, Mat2, $T, $tn, $gen); views!(3, Mat3, $T, $tn, $gen); views!(4, Mat4, $T, $tn, $gen); } }
+        const W20: [&str; 20] = ["a", "bc", "def", "ghij", "klmno", "p", "qr", "stu", "vwxy", "zABCD", "E", "FG", "HIJ", "KLMN", "OPQRS", "T", "UV", "WXY", "Z012", "34567"];
+        views3!([u8; 3], "[u8;3]", |k: usize| [k as u8 + 1, 100 + k as u8, 200 - k as u8]);
+        views3!(u8, "u8", |k: usize| k as u8 + 1);
+        views3!(i32, "i32", |k: usize| (1000 * (k as i32 + 1) + 7) * if k % 2 == 0 { 1 } else { -1 });
+        views3!(u128, "u128", |k: usize| ((k as u128 + 1) << 100) | (k as u128 * 3 + 1));
+        views3!(Option<u8>, "Option<u8>", |k: usize| if k == 5 { None } else { Some(k as u8) });
+        views3!((u8, u32), "(u8,u32)", |k: usize| (k as u8 + 1, 0xDEAD_0000u32 + k as u32));
+        views3!([u64; 5], "[u64;5]", |k: usize| [k as u64, 1, 2, 3, u64::MAX - k as u64]);
+        views3!(&'static str, "&str", |k: usize| W20[k]);
+        views3!((), "()", |_k: usize| ());
+        views3!([u16; 0], "[u16;0]", |_k: usize| -> [u16; 0] { [] });
+    });
+
+    rep.section("numcast and as_ at the conversion thresholds of further element kinds (elementwise oracle)",
+        "numcast: for the 6 matrix types and 15 (source,target) element pairs - f64->i32, f64->u16, f64->f32, f32->f64, i64->i64, i64->u64, u64->i64, u64->u64, i64->f64, u64->f32, i64->i8, i128->i64, i64->i128, isize->usize, Wrapping<i64>->Wrapping<u8> - a base matrix of pairwise distinct convertible entries and, for EVERY position (i,j), each special value of the pair's alphabet there (just below / at / just above the target's bounds, 2^53+1 and the 64-bit extremes that a detour through f64 or i64 cannot carry, fractions, -0.0, subnormals, NaN, +-inf); oracle: the result is Some(matrix of <D as NumCast>::from(element)) when every element converts and None as a whole otherwise - num_traits applied per element by the check, nothing of vek; as_: 7 pairs (f64->i32, f64->u8, i32->u8, i64->f32, u64->i64, f32->f64, f64->f32) against Rust's `as` per element (saturation, NaN -> 0, wrap-around); results are compared through their Debug rendering (NaN = NaN, -0.0 != 0.0); non-trivial: all", true, false, |s| {
+        use std::num::Wrapping;
+        s.require_classes(&["converted-as-a-whole", "rejected-as-a-whole", "as_"]);
+        fn run_cases<S: Copy + std::fmt::Debug, const N: usize>(s: &Section, site: &str, class: &str, is_as: bool, base: &A<S, N>, specials: &[S], real: &dyn Fn(&A<S, N>) -> Option<String>, oracle: &dyn Fn(&A<S, N>) -> Option<String>) {
+            let mut cases: Vec<(A<S, N>, String, u64)> = vec![(*base, "base matrix".into(), 0)];
+            for (q, &sp) in specials.iter().enumerate() { for i in 0..N { for j in 0..N { let mut b = *base; b[i][j] = sp; cases.push((b, format!("{:?} at ({},{})", sp, i, j), (1 + q * N * N + i * N + j) as u64)); } } }
+            for (a, what, wt) in cases {
+                let want = oracle(&a);
+                s.eval(true); s.class(if is_as { "as_" } else if want.is_some() { "converted-as-a-whole" } else { "rejected-as-a-whole" });
+                if let Some(got) = s.call(site, || json!({"input": format!("{:?}", a)}), || real(&a)) {
+                    if got != want { s.violation_w(site, class, json!({"changed": what, "input": format!("{:?}", a), "got": got, "want": want}), wt); }
+                    else if N == 3 && want.is_none() && s.wants_sample() { s.sample(json!({"call": site, "changed": what, "result": "None"})); }
+                }
+            }
+        }
+        macro_rules! ncp { ($N:expr, $M:ident, $S:ty, $D:ty, $pn:expr, $base:expr, $sp:expr) => {{
+            const N: usize = $N;
+            let bf = $base;
+            let base: A<$S, N> = std::array::from_fn(|i| std::array::from_fn(|j| bf(i * N + j)));
+            let specials: Vec<$S> = $sp;
+            let oracle = |a: &A<$S, N>| -> Option<String> { let mut o = [[<$D>::default(); N]; N]; for i in 0..N { for j in 0..N { o[i][j] = <$D as vek::num_traits::NumCast>::from(a[i][j])?; } } Some(format!("{:?}", o)) };
+            run_cases::<$S, N>(s, &format!("Mat{}<row>::numcast<{}>", N, $pn), "differs-from-the-elementwise-NumCast", false, &base, &specials, &|a| <rm::$M<$S> as MatIO<$S, N>>::build(a).numcast::<$D>().map(|m| format!("{:?}", m.decode())), &oracle);
+            run_cases::<$S, N>(s, &format!("Mat{}<col>::numcast<{}>", N, $pn), "differs-from-the-elementwise-NumCast", false, &base, &specials, &|a| <cm::$M<$S> as MatIO<$S, N>>::build(a).numcast::<$D>().map(|m| format!("{:?}", m.decode())), &oracle);
+        }} }
+        macro_rules! asp { ($N:expr, $M:ident, $S:ty, $D:ty, $pn:expr, $base:expr, $sp:expr) => {{
+            const N: usize = $N;
+            let bf = $base;
+            let base: A<$S, N> = std::array::from_fn(|i| std::array::from_fn(|j| bf(i * N + j)));
+            let specials: Vec<$S> = $sp;
+            let oracle = |a: &A<$S, N>| -> Option<String> { let o: A<$D, N> = std::array::from_fn(|i| std::array::from_fn(|j| a[i][j] as $D)); Some(format!("{:?}", o)) };
+            run_cases::<$S, N>(s, &format!("Mat{}<row>::as_<{}>", N, $pn), "differs-from-the-elementwise-as-cast", true, &base, &specials, &|a| Some(format!("{:?}", <rm::$M<$S> as MatIO<$S, N>>::build(a).as_::<$D>().decode())), &oracle);
+            run_cases::<$S, N>(s, &format!("Mat{}<col>::as_<{}>", N, $pn), "differs-from-the-elementwise-as-cast", true, &base, &specials, &|a| Some(format!("{:?}", <cm::$M<$S> as MatIO<$S, N>>::build(a).as_::<$D>().decode())), &oracle);
+        }} }
+        macro_rules! three { ($mac:ident, $S:ty, $D:ty, $pn:expr, $base:expr, $sp:expr) => { $mac!(2, Mat2, $S, $D, $pn, $base, $sp); $mac!(3, Mat3, $S, $D, $pn, $base, $sp); $mac!(4, Mat4, $S, $D, $pn, $base, $sp); } }
+        let sgn = |k: usize| if k % 2 == 0 { 1i64 } else { -1 };
+        const P53: i64 = (1i64 << 53) + 1;
+        three!(ncp, f64, i32, "f64,i32 thresholds", |k: usize| (100 * (k as i64 + 1)) as f64 * sgn(k) as f64 + 0.375, vec![2147483647.0, 2147483647.9, 2147483648.0, -2147483648.0, -2147483648.9, -2147483649.0, f64::NAN, f64::INFINITY, f64::NEG_INFINITY, -0.0, 5e-324, -0.9, 0.9, 1e40]);
+        three!(ncp, f64, u16, "f64,u16 thresholds", |k: usize| (100 * (k as i64 + 1)) as f64 + 0.625, vec![-0.9, -1.0, 65535.0, 65535.9, 65536.0, -0.0, f64::NAN]);
+        three!(ncp, f64, f32, "f64,f32", |k: usize| (k as f64 + 1.0) * 0.1 * sgn(k) as f64, vec![1e40, -1e40, 1e-50, 16777217.0, f64::NAN, f64::INFINITY, f64::MAX, f64::MIN_POSITIVE]);
+        three!(ncp, f32, f64, "f32,f64", |k: usize| (k as f32 + 1.0) * 0.1 * sgn(k) as f32, vec![f32::MAX, f32::MIN_POSITIVE, 1e-45, f32::NAN, f32::NEG_INFINITY, 16777216.0]);
+        three!(ncp, i64, i64, "i64,i64", |k: usize| (k as i64 + 1) * 1001 * sgn(k), vec![P53, -P53, i64::MAX, i64::MIN, i64::MAX - 1, i64::MIN + 1]);
+        three!(ncp, i64, u64, "i64,u64", |k: usize| (k as i64 + 1) * 1001, vec![-1, 0, i64::MAX, i64::MIN, P53]);
+        three!(ncp, u64, i64, "u64,i64", |k: usize| (k as u64 + 1) * 1001, vec![u64::MAX, 1u64 << 63, (1u64 << 63) - 1, P53 as u64]);
+        three!(ncp, u64, u64, "u64,u64", |k: usize| (k as u64 + 1) * 1001, vec![u64::MAX, u64::MAX - 1, (1u64 << 63) + 1, P53 as u64]);
+        three!(ncp, i64, f64, "i64,f64", |k: usize| (k as i64 + 1) * 1001 * sgn(k), vec![P53, i64::MAX, i64::MIN, -P53]);
+        three!(ncp, u64, f32, "u64,f32", |k: usize| (k as u64 + 1) * 1001, vec![16777217, u64::MAX, (1u64 << 53) + 1]);
+        three!(ncp, i64, i8, "i64,i8 thresholds", |k: usize| (k as i64 + 1) * sgn(k), vec![127, 128, -128, -129]);
+        three!(ncp, i128, i64, "i128,i64 thresholds", |k: usize| ((k as i64 + 1) * 1001 * sgn(k)) as i128, vec![i64::MAX as i128, i64::MAX as i128 + 1, i64::MIN as i128, i64::MIN as i128 - 1, i128::MAX, i128::MIN]);
+        three!(ncp, i64, i128, "i64,i128", |k: usize| (k as i64 + 1) * 1001 * sgn(k), vec![i64::MAX, i64::MIN, P53]);
+        three!(ncp, isize, usize, "isize,usize thresholds", |k: usize| (k as isize + 1) * 1001, vec![-1, 0, isize::MAX, isize::MIN]);
+        three!(ncp, Wrapping<i64>, Wrapping<u8>, "Wrapping<i64>,Wrapping<u8> thresholds", |k: usize| Wrapping(k as i64 + 1), vec![Wrapping(255), Wrapping(256), Wrapping(-1), Wrapping(0)]);
+        three!(asp, f64, i32, "f64,i32", |k: usize| (100 * (k as i64 + 1)) as f64 * sgn(k) as f64 + 0.375, vec![f64::NAN, f64::INFINITY, f64::NEG_INFINITY, 2147483648.0, -2147483649.0, -0.9, 1e40, 300.7]);
+        three!(asp, f64, u8, "f64,u8", |k: usize| k as f64 * 3.0 + 0.75, vec![-1.5, 255.9, 256.0, f64::NAN, 300.7, -0.0]);
+        three!(asp, i32, u8, "i32,u8", |k: usize| k as i32 + 1, vec![256, -1, 255, i32::MIN, 300]);
+        three!(asp, i64, f32, "i64,f32", |k: usize| (k as i64 + 1) * 1001 * sgn(k), vec![16777217, i64::MAX, P53]);
+        three!(asp, u64, i64, "u64,i64", |k: usize| (k as u64 + 1) * 1001, vec![u64::MAX, 1u64 << 63]);
+        three!(asp, f32, f64, "f32,f64", |k: usize| (k as f32 + 1.0) * 0.1, vec![f32::MAX, 1e-45, f32::NAN]);
+        three!(asp, f64, f32, "f64,f32", |k: usize| (k as f64 + 1.0) * 0.1, vec![1e40, 16777217.0, 1e-50, f64::NAN]);
+    });
+
+    rep.section("Display: every formatter setting reaches every element identically in both layouts (spy element, special renderings)",
+        "for n=2,3,4 and 4 element kinds - a spy whose Display prints every formatter setting it is handed (width, precision, fill, alignment, the +, -, # and 0 flags), f64 with special renderings (NaN, +-inf, -0.0, subnormal, 1e300, fractions), &str with special contents (empty, blanks, embedded newline, parentheses, non-ASCII), char - 3 matrices each (generic, transposed, rows reversed) built by struct literal in both layouts: the output of the row-major and of the column-major value must be the same string under each of 16 format specifications, among them the flags the first Display section does not use (#, -, a bare 0, widths 0/1, precision 0, run-time width / precision arguments, a non-ASCII fill), and under \"{}\" equal to the plain model rendering; counted: specifications under which the spy's output differs from its \"{}\" output (must occur); non-trivial: all", true, false, |s| {
+        s.require_classes(&["plain", "spy-sees-the-setting"]);
+        macro_rules! fmt_all { ($m:expr) => { vec![
+            ("{}", format!("{}", $m)), ("{:#}", format!("{:#}", $m)), ("{:-}", format!("{:-}", $m)), ("{:+}", format!("{:+}", $m)), ("{:0}", format!("{:0}", $m)),
+            ("{:1}", format!("{:1}", $m)), ("{:.0}", format!("{:.0}", $m)), ("{:#07.2}", format!("{:#07.2}", $m)), ("{:_<+5}", format!("{:_<+5}", $m)), ("{:^#9.3}", format!("{:^#9.3}", $m)),
+            ("{:>-012}", format!("{:>-012}", $m)), ("{:+#}", format!("{:+#}", $m)), ("{:w$.p$} with w=6 p=1", format!("{:w$.p$}", $m, w = 6, p = 1)), ("{:*^1$} with 11", format!("{:*^1$}", $m, 11)),
+            ("{:.*} with 3", format!("{:.*}", 3, $m)), ("{:\u{e9}>4}", format!("{:\u{e9}>4}", $m)),
+        ] } }
+        fn plain2<T: std::fmt::Display + Copy, const N: usize>(a: &A<T, N>) -> String {
+            let mut o = String::from("(");
+            for i in 0..N { if i > 0 { o.push_str("\n "); } for j in 0..N { o.push(' '); o.push_str(&format!("{}", a[i][j])); } }
+            o.push_str(" )"); o
+        }
+        const F16: [f64; 16] = [f64::NAN, f64::INFINITY, -0.0, 1e300, 5e-324, 1.5, -2.25, 1e-7, 123456789.125, f64::NEG_INFINITY, f64::MAX, f64::MIN_POSITIVE, 0.1, -0.1, 3.0, 0.0];
+        const S16: [&str; 16] = ["", " ", "a b", "x\ny", "\u{e9}\u{4e2d}", "\t", "( )", ")", "(", "ab", "\n ", "c", " d", "e ", "\n", "fgh"];
+        macro_rules! disp2 { ($N:expr, $M:ident) => {{
+            const N: usize = $N;
+            let asp: A<Spy, N> = std::array::from_fn(|i| std::array::from_fn(|j| Spy((i * N + j) as u8)));
+            let af: A<f64, N> = std::array::from_fn(|i| std::array::from_fn(|j| F16[i * N + j]));
+            let aw: A<&'static str, N> = std::array::from_fn(|i| std::array::from_fn(|j| S16[i * N + j]));
+            let ac: A<char, N> = std::array::from_fn(|i| std::array::from_fn(|j| (b'a' + (i * N + j) as u8) as char));
+            macro_rules! three2 { ($a:expr, $kind:expr, $spy:expr) => {{
+                let base = $a;
+                let rev = { let mut x = base; x.reverse(); x };
+                for (which, a) in [("generic", base), ("transposed", transpose(&base)), ("rows reversed", rev)] {
+                    let (r, c) = (rm::$M::build(&a), cm::$M::build(&a));
+                    let site = format!("Mat{}::Display<{}> under further flags", N, $kind);
+                    if let Some((fr, fc)) = s.call(&site, || json!({"matrix": which}), || (fmt_all!(r), fmt_all!(c))) {
+                        for k in 0..fr.len() {
+                            s.eval(true);
+                            if k == 0 { s.class("plain"); } else if $spy && fr[k].1 != fr[0].1 { s.class("spy-sees-the-setting"); }
+                            if fr[k].1 != fc[k].1 { s.violation_w(&format!("Mat{}<{}>::Display with \"{}\" (further flags)", N, $kind, fr[k].0), "row-major-and-column-major-output-differ", json!({"matrix": which, "row_major": fr[k].1, "column_major": fc[k].1}), k as u64); }
+                        }
+                        let want = plain2(&a);
+                        if fr[0].1 != want { s.violation(&format!("Mat{}<row>::Display<{}> (special renderings)", N, $kind), "display-is-not-the-rows-in-order", json!({"matrix": which, "got": fr[0].1, "want": want})); }
+                        if fc[0].1 != want { s.violation(&format!("Mat{}<col>::Display<{}> (special renderings)", N, $kind), "display-is-not-the-rows-in-order", json!({"matrix": which, "got": fc[0].1, "want": want})); }
+                        if $spy && N == 2 && s.wants_sample() { s.sample(json!({"n": N, "kind": $kind, "matrix": which, "spec": fr[9].0, "both_layouts_print": fr[9].1})); }
+                    }
+                }
+            }} }
+            three2!(asp, "Spy", true); three2!(af, "f64 specials", false); three2!(aw, "&str specials", false); three2!(ac, "char", false);
+        }} }
+        disp2!(2, Mat2); disp2!(3, Mat3); disp2!(4, Mat4);
+    });
+
+    rep.section("trait forms of zero / identity; map, map2, apply, apply2 call the closure once per element",
+        "for the 6 matrix types: <M as num_traits::One>::one() and <M as num_traits::Zero>::zero() (implemented apart from the inherent identity()/zero()/Default) decoded by fields for i64 and f64, also seen through the other layout; map / map2 / apply / apply2 with a recording closure on N*N pairwise distinct symbols (partner: N*N distinct u8 tags): the closure must be called exactly N*N times and the multiset of its arguments must be the multiset of the elements (map2/apply2: of the (element, partner element at the same (i,j)) pairs) - the ORDER of the calls is deliberately left open (row-major walks rows, column-major walks columns); non-trivial: all", true, false, |s| {
+        s.require_classes(&["trait-form", "call-multiplicity"]);
+        use vek::num_traits::{One as NOne, Zero as NZero};
+        macro_rules! tf { ($N:expr, $M:ident, $lay:ident, $other:ident, $ln:expr) => {{
+            const N: usize = $N;
+            let idi: A<i64, N> = std::array::from_fn(|i| std::array::from_fn(|j| (i == j) as i64));
+            let idf: A<f64, N> = std::array::from_fn(|i| std::array::from_fn(|j| (i == j) as u8 as f64));
+            s.evals(6, 6); s.class_n("trait-form", 6);
+            if let Some(m) = s.call(&format!("<Mat{}<{}> as One>::one<i64>", N, $ln), || json!({}), || <$lay::$M<i64> as NOne>::one()) {
+                if m.decode() != idi { s.violation(&format!("<Mat{}<{}> as One>::one<i64>", N, $ln), "not-identity", json!({"got": format!("{:?}", m.decode())})); }
+                if $other::$M::<i64>::from(m).decode() != idi { s.violation(&format!("<Mat{}<{}> as One>::one<i64>", N, $ln), "not-identity-in-the-other-layout", json!({})); }
+            }
+            if let Some(m) = s.call(&format!("<Mat{}<{}> as One>::one<f64>", N, $ln), || json!({}), || <$lay::$M<f64> as NOne>::one()) {
+                if m.decode() != idf { s.violation(&format!("<Mat{}<{}> as One>::one<f64>", N, $ln), "not-identity", json!({"got": format!("{:?}", m.decode())})); }
+            }
+            if let Some(m) = s.call(&format!("<Mat{}<{}> as Zero>::zero<i64>", N, $ln), || json!({}), || <$lay::$M<i64> as NZero>::zero()) {
+                if m.decode() != [[0i64; N]; N] { s.violation(&format!("<Mat{}<{}> as Zero>::zero<i64>", N, $ln), "not-zero", json!({"got": format!("{:?}", m.decode())})); }
+            }
+            if let Some(m) = s.call(&format!("<Mat{}<{}> as Zero>::zero<f64>", N, $ln), || json!({}), || <$lay::$M<f64> as NZero>::zero()) {
+                if m.decode() != [[0f64; N]; N] { s.violation(&format!("<Mat{}<{}> as Zero>::zero<f64>", N, $ln), "not-zero", json!({"got": format!("{:?}", m.decode())})); }
+            }
+            // call multiplicity
+            let arr: A<Sym, N> = std::array::from_fn(|i| std::array::from_fn(|j| Sym(10 + (i * N + j) as u16)));
+            let tag: A<u8, N> = std::array::from_fn(|i| std::array::from_fn(|j| (i * N + j) as u8 + 1));
+            let mut want1: Vec<u16> = arr.iter().flatten().map(|x| x.0).collect(); want1.sort();
+            let mut want2: Vec<(u16, u8)> = (0..N).flat_map(|i| (0..N).map(move |j| (i, j))).map(|(i, j)| (arr[i][j].0, tag[i][j])).collect(); want2.sort();
+            let m = <$lay::$M<Sym> as MatIO<Sym, N>>::build(&arr);
+            let p = <$lay::$M<u8> as MatIO<u8, N>>::build(&tag);
+            s.evals(4, 4); s.class_n("call-multiplicity", 4);
+            let site = |f: &str| format!("Mat{}<{}>::{} (recording closure)", N, $ln, f);
+            let mut seen: Vec<u16> = Vec::new();
+            if s.call(&site("map"), || json!({}), || { let _ = m.map(|x: Sym| { seen.push(x.0); x.0 as u32 }); }).is_some() {
+                seen.sort(); if seen != want1 { s.violation(&site("map"), "closure-not-called-once-per-element", json!({"arguments_sorted": seen, "elements_sorted": want1})); }
+            }
+            let mut seen: Vec<u16> = Vec::new();
+            if s.call(&site("apply"), || json!({}), || { let mut m2 = m; m2.apply(|x: Sym| { seen.push(x.0); x }); }).is_some() {
+                seen.sort(); if seen != want1 { s.violation(&site("apply"), "closure-not-called-once-per-element", json!({"arguments_sorted": seen, "elements_sorted": want1})); }
+            }
+            let mut seen2: Vec<(u16, u8)> = Vec::new();
+            if s.call(&site("map2"), || json!({}), || { let _ = m.map2(p, |x: Sym, t: u8| { seen2.push((x.0, t)); t }); }).is_some() {
+                seen2.sort(); if seen2 != want2 { s.violation(&site("map2"), "closure-not-called-once-per-element-pair", json!({"arguments_sorted": format!("{:?}", seen2), "pairs_sorted": format!("{:?}", want2)})); }
+            }
+            let mut seen2: Vec<(u16, u8)> = Vec::new();
+            if s.call(&site("apply2"), || json!({}), || { let mut m2 = m; m2.apply2(p, |x: Sym, t: u8| { seen2.push((x.0, t)); x }); }).is_some() {
+                seen2.sort(); if seen2 != want2 { s.violation(&site("apply2"), "closure-not-called-once-per-element-pair", json!({"arguments_sorted": format!("{:?}", seen2), "pairs_sorted": format!("{:?}", want2)})); }
+            }
+        }} }
+        tf!(2, Mat2, rm, cm, "row"); tf!(2, Mat2, cm, rm, "col"); tf!(3, Mat3, rm, cm, "row"); tf!(3, Mat3, cm, rm, "col"); tf!(4, Mat4, rm, cm, "row"); tf!(4, Mat4, cm, rm, "col");
+        s.sample(json!({"call": "<column_major::Mat3<i64> as num_traits::One>::one()", "want": "identity by fields"}));
     });
     std::process::exit(rep.finish_with(lk));
 }
